@@ -6,45 +6,248 @@ import (
 	"golang.org/x/tools/go/ssa"
 )
 
-// Channels and goroutines: FIFO channels with a cooperative deterministic scheduler.
-// (No schedule exploration: this is enough for single-producer pipelines.)
+// Channels and goroutines: FIFO channels and a cooperative, deterministic scheduler.
+//
+// Every interpreted goroutine runs on its own host goroutine, but only one of them holds the baton at any time;
+// control changes hands only where the running goroutine cannot proceed (empty/full channel, WaitGroup.Wait,
+// a held mutex, select with no ready case) or ends. The next goroutine is chosen round-robin by creation order,
+// so a path is replayed identically. This explores ONE fair schedule per path - it is not a schedule search.
+// Unbuffered channels rendezvous: the sender continues only after its value has been taken.
 
-type scheduler struct{}
+type gor struct {
+	id     int
+	resume chan struct{}
+	done   bool
+	frame  *frame
+}
 
-func (s *scheduler) finish(in *Interp) {}
+type scheduler struct {
+	gs       []*gor
+	cur      *gor
+	progress int64       // bumped by every successful channel operation / goroutine start / exit / unlock
+	fault    interface{} // panic value that escaped a goroutine; re-raised in the main goroutine
+	killing  bool
+}
 
-type hashRec struct{}
+type gorKill struct{}
+
+func (in *Interp) schedInit() *scheduler {
+	if in.sched == nil {
+		main := &gor{id: 0, resume: make(chan struct{}, 1)}
+		in.sched = &scheduler{gs: []*gor{main}, cur: main}
+	}
+	return in.sched
+}
+
+func (in *Interp) canBlock() bool { return in.sched != nil && len(in.sched.gs) > 1 }
+
+// switchTo hands the baton to g and waits until it comes back.
+func (in *Interp) switchTo(g *gor) {
+	s := in.sched
+	me := s.cur
+	me.frame = in.curFrame
+	s.cur = g
+	in.curFrame = g.frame
+	g.resume <- struct{}{}
+	<-me.resume
+	s.cur = me
+	in.curFrame = me.frame
+	if s.killing && me.id != 0 {
+		panic(gorKill{})
+	}
+	if me.id == 0 && s.fault != nil {
+		f := s.fault
+		s.fault = nil
+		panic(f)
+	}
+}
+
+// yield: the current goroutine cannot proceed; run the others. Returns when it is this goroutine's turn again.
+func (in *Interp) yield(why string) {
+	s := in.sched
+	if s == nil || len(s.gs) < 2 {
+		panic(in.unsupported("goroutine would block forever (%s) with no other goroutine", why))
+	}
+	if in.noFork > 0 {
+		panic(mergeAbort{})
+	}
+	me := s.cur
+	// next live goroutine after me, round-robin
+	n := len(s.gs)
+	idx := 0
+	for i, g := range s.gs {
+		if g == me {
+			idx = i
+		}
+	}
+	for k := 1; k <= n; k++ {
+		g := s.gs[(idx+k)%n]
+		if g.done || g == me {
+			continue
+		}
+		in.switchTo(g)
+		return
+	}
+	panic(in.unsupported("all goroutines are blocked (%s)", why))
+}
+
+// blockUntil yields until cond holds; if every goroutine keeps yielding without any progress the path deadlocks.
+func (in *Interp) blockUntil(why string, cond func() bool) {
+	spins := 0
+	for !cond() {
+		s := in.schedInit()
+		before := s.progress
+		in.yield(why)
+		if s.progress == before {
+			spins++
+			if spins > 2*len(s.gs)+2 {
+				if s.cur.id != 0 {
+					// a blocked helper goroutine: park it for good by handing control to main
+					in.parkForever(why)
+				}
+				panic(in.unsupported("deadlock: goroutine blocked forever (%s)", why))
+			}
+		} else {
+			spins = 0
+		}
+	}
+	if in.sched != nil {
+		in.sched.progress++
+	}
+}
+
+// parkForever: a non-main goroutine that can never proceed stops taking turns (it is leaked, as in a real
+// program); control returns to the others.
+func (in *Interp) parkForever(why string) {
+	s := in.sched
+	s.cur.done = true
+	in.stubs["goroutine parked forever: "+why]++
+	main := s.gs[0]
+	me := s.cur
+	me.frame = in.curFrame
+	s.cur = main
+	in.curFrame = main.frame
+	// wake the next live goroutine (main is always live while the path runs)
+	for _, g := range s.gs {
+		if !g.done {
+			s.cur = g
+			in.curFrame = g.frame
+			g.resume <- struct{}{}
+			break
+		}
+	}
+	<-me.resume // only ever resumed to be killed
+	panic(gorKill{})
+}
+
+func (in *Interp) goStmt(fr *frame, fn value, args []value) {
+	s := in.schedInit()
+	g := &gor{id: len(s.gs), resume: make(chan struct{}, 1)}
+	s.gs = append(s.gs, g)
+	s.progress++
+	in.stubs["go statement (cooperative scheduler, one fair schedule)"]++
+	go func() {
+		<-g.resume
+		defer func() {
+			r := recover()
+			g.done = true
+			s.progress++
+			if _, killed := r.(gorKill); !killed && r != nil && s.fault == nil && !s.killing {
+				s.fault = r
+			}
+			if s.killing {
+				s.gs[0].resume <- struct{}{} // back to finish()
+				return
+			}
+			// hand the baton on: to main if there is a fault, else to the next live goroutine
+			next := s.gs[0]
+			if s.fault == nil {
+				n := len(s.gs)
+				for k := 1; k <= n; k++ {
+					c := s.gs[(g.id+k)%n]
+					if !c.done {
+						next = c
+						break
+					}
+				}
+			}
+			s.cur = next
+			in.curFrame = next.frame
+			next.resume <- struct{}{}
+		}()
+		if s.killing {
+			panic(gorKill{})
+		}
+		in.curFrame = nil
+		in.call(nil, fn, args, nil)
+	}()
+}
+
+// finish kills the goroutines that are still alive when the harness returns.
+func (s *scheduler) finish(in *Interp) {
+	s.killing = true
+	for _, g := range s.gs[1:] {
+		if g.done {
+			continue
+		}
+		g.done = true
+		s.cur = g
+		g.resume <- struct{}{}
+		<-s.gs[0].resume
+	}
+	s.cur = s.gs[0]
+}
 
 func (in *Interp) chanSend(c *chanV, v value) {
 	if c == nil {
-		panic(in.unsupported("send on nil channel (blocks forever)"))
+		in.blockUntil("send on nil channel", func() bool { return false })
 	}
 	if c.closed {
 		in.targetPanicStr("send on closed channel")
 	}
-	if len(c.buf) < c.cap || in.canBlock() {
-		for len(c.buf) >= max(c.cap, 1) {
-			in.yield("send")
+	if c.cap > 0 {
+		if len(c.buf) >= c.cap {
+			in.blockUntil("send", func() bool { return len(c.buf) < c.cap || c.closed })
+			if c.closed {
+				in.targetPanicStr("send on closed channel")
+			}
 		}
 		c.buf = append(c.buf, copyVal(v))
+		in.bump()
 		return
 	}
-	panic(in.unsupported("blocking channel send without a receiver"))
+	// unbuffered: wait until the slot is free, put the value, wait until it has been taken
+	if len(c.buf) > 0 {
+		in.blockUntil("send", func() bool { return len(c.buf) == 0 || c.closed })
+		if c.closed {
+			in.targetPanicStr("send on closed channel")
+		}
+	}
+	c.buf = append(c.buf, copyVal(v))
+	c.sent++
+	mine := c.sent
+	in.bump()
+	in.blockUntil("send (rendezvous)", func() bool { return c.recvd >= mine })
+}
+
+func (in *Interp) bump() {
+	if in.sched != nil {
+		in.sched.progress++
+	}
 }
 
 func (in *Interp) chanRecv(c *chanV, commaOk bool, elemT types.Type) value {
 	if c == nil {
-		panic(in.unsupported("receive on nil channel (blocks forever)"))
+		in.blockUntil("receive on nil channel", func() bool { return false })
 	}
-	for len(c.buf) == 0 && !c.closed {
-		if !in.canBlock() {
-			panic(in.unsupported("blocking channel receive without a sender"))
-		}
-		in.yield("recv")
+	if len(c.buf) == 0 && !c.closed {
+		in.blockUntil("recv", func() bool { return len(c.buf) > 0 || c.closed })
 	}
 	if len(c.buf) > 0 {
 		v := c.buf[0]
 		c.buf = c.buf[1:]
+		c.recvd++
+		in.bump()
 		if commaOk {
 			return tuple{v, true}
 		}
@@ -64,19 +267,72 @@ func (in *Interp) chanClose(c *chanV) {
 		in.targetPanicStr("close of closed channel")
 	}
 	c.closed = true
+	in.bump()
 }
 
-func (in *Interp) canBlock() bool { return false }
-func (in *Interp) yield(why string) {
-	panic(in.unsupported("goroutine scheduling (%s)", why))
-}
-
-func (in *Interp) goStmt(fr *frame, fn value, args []value) {
-	panic(in.unsupported("go statement"))
-}
-
+// selectStmt: the first ready case in source order is taken (Go picks at random among ready cases; this is one of
+// the allowed outcomes). Without a ready case: default if present, else wait.
 func (in *Interp) selectStmt(fr *frame, instr *ssa.Select) value {
-	panic(in.unsupported("select statement"))
+	if in.noFork > 0 {
+		panic(mergeAbort{})
+	}
+	type st struct {
+		c    *chanV
+		send bool
+		v    value
+		elem types.Type
+	}
+	states := make([]st, len(instr.States))
+	for i, s := range instr.States {
+		c, _ := fr.get(s.Chan).(*chanV)
+		states[i] = st{c: c, send: s.Dir == types.SendOnly}
+		if states[i].send {
+			states[i].v = fr.get(s.Send)
+		} else {
+			states[i].elem = s.Chan.Type().Underlying().(*types.Chan).Elem()
+		}
+	}
+	ready := func() int {
+		for i, s := range states {
+			if s.c == nil {
+				continue
+			}
+			if s.send {
+				if s.c.closed || (s.c.cap > 0 && len(s.c.buf) < s.c.cap) {
+					return i
+				}
+			} else if len(s.c.buf) > 0 || s.c.closed {
+				return i
+			}
+		}
+		return -1
+	}
+	idx := ready()
+	if idx < 0 {
+		if !instr.Blocking {
+			idx = -1
+		} else {
+			in.blockUntil("select", func() bool { idx = ready(); return idx >= 0 })
+		}
+	}
+	// result tuple: (index int, recvOk bool, r_0 T_0, ... r_n-1 T_n-1) with one r per receive state
+	res := tuple{uint64(int64(idx)) & mask(64), false}
+	for i, s := range states {
+		if s.send {
+			continue
+		}
+		if i == idx {
+			v := in.chanRecv(s.c, true, s.elem).(tuple)
+			res[1] = v[1]
+			res = append(res, v[0])
+		} else {
+			res = append(res, zero(s.elem))
+		}
+	}
+	if idx >= 0 && states[idx].send {
+		in.chanSend(states[idx].c, states[idx].v)
+	}
+	return res
 }
 
 func (in *Interp) callNativeMethod(caller *frame, nm *nativeMethod, args []value) value {
@@ -90,3 +346,105 @@ func (in *Interp) callNativeMethod(caller *frame, nm *nativeMethod, args []value
 }
 
 var nativeMethods = map[string]func(in *Interp, fr *frame, recv *native, args []value) value{}
+
+// ---------- sync primitives under the cooperative scheduler ----------
+// Without other goroutines they never block (a sequential program that would block is not modelled).
+
+type lockState struct {
+	writer  bool
+	readers int
+}
+
+func (in *Interp) lockOf(p value) *lockState {
+	m, _ := in.natives["locks"].(map[value]*lockState)
+	if m == nil {
+		m = map[value]*lockState{}
+		in.natives["locks"] = m
+	}
+	l := m[p]
+	if l == nil {
+		l = &lockState{}
+		m[p] = l
+	}
+	return l
+}
+
+func init() {
+	ext := externals
+	ext["(*sync.Mutex).Lock"] = func(in *Interp, fr *frame, args []value) value {
+		l := in.lockOf(args[0])
+		if l.writer && in.canBlock() {
+			in.blockUntil("Mutex.Lock", func() bool { return !l.writer })
+		}
+		l.writer = true
+		return nil
+	}
+	ext["(*sync.Mutex).Unlock"] = func(in *Interp, fr *frame, args []value) value {
+		in.lockOf(args[0]).writer = false
+		in.bump()
+		return nil
+	}
+	ext["(*sync.RWMutex).Lock"] = func(in *Interp, fr *frame, args []value) value {
+		l := in.lockOf(args[0])
+		if (l.writer || l.readers > 0) && in.canBlock() {
+			in.blockUntil("RWMutex.Lock", func() bool { return !l.writer && l.readers == 0 })
+		}
+		l.writer = true
+		return nil
+	}
+	ext["(*sync.RWMutex).Unlock"] = ext["(*sync.Mutex).Unlock"]
+	ext["(*sync.RWMutex).RLock"] = func(in *Interp, fr *frame, args []value) value {
+		l := in.lockOf(args[0])
+		if l.writer && in.canBlock() {
+			in.blockUntil("RWMutex.RLock", func() bool { return !l.writer })
+		}
+		l.readers++
+		return nil
+	}
+	ext["(*sync.RWMutex).RUnlock"] = func(in *Interp, fr *frame, args []value) value {
+		l := in.lockOf(args[0])
+		if l.readers > 0 {
+			l.readers--
+		}
+		in.bump()
+		return nil
+	}
+	wgCount := func(in *Interp, p value) *int64 {
+		m, _ := in.natives["wgs"].(map[value]*int64)
+		if m == nil {
+			m = map[value]*int64{}
+			in.natives["wgs"] = m
+		}
+		c := m[p]
+		if c == nil {
+			c = new(int64)
+			m[p] = c
+		}
+		return c
+	}
+	ext["(*sync.WaitGroup).Add"] = func(in *Interp, fr *frame, args []value) value {
+		c := wgCount(in, args[0])
+		*c += sext(args[1].(uint64), 64)
+		if *c < 0 {
+			in.targetPanicStr("sync: negative WaitGroup counter")
+		}
+		in.bump()
+		return nil
+	}
+	ext["(*sync.WaitGroup).Done"] = func(in *Interp, fr *frame, args []value) value {
+		c := wgCount(in, args[0])
+		*c--
+		if *c < 0 {
+			in.targetPanicStr("sync: negative WaitGroup counter")
+		}
+		in.bump()
+		return nil
+	}
+	ext["(*sync.WaitGroup).Wait"] = func(in *Interp, fr *frame, args []value) value {
+		c := wgCount(in, args[0])
+		if *c > 0 && in.canBlock() {
+			in.blockUntil("WaitGroup.Wait", func() bool { return *c <= 0 })
+		}
+		return nil
+	}
+}
